@@ -508,6 +508,27 @@ func (ga *guardAnalysis) tiesFor(j int) []tie {
 				out = append(out, t)
 			} else if t, ok := ga.exclusiveTie(i, j, e); ok {
 				out = append(out, t)
+			} else if t, ok := ga.orderTie(i, j, e); ok {
+				out = append(out, t)
+			}
+		}
+	}
+	// the comparison of a tracked pointer-like variable with nil, spelt on the variable itself while its value is a
+	// call result the leaves speak about (`if err = f(); err != nil`): the atom and the variable's flag agree
+	if be, ok := ast.Unparen(e).(*ast.BinaryExpr); ok && be.Op == token.EQL {
+		f := ga.g.Fn
+		var other ast.Expr
+		switch {
+		case f.IsNilLit(be.Y):
+			other = be.X
+		case f.IsNilLit(be.X):
+			other = be.Y
+		}
+		if id, ok := other.(*ast.Ident); ok {
+			if o := f.ObjOf(id); o != nil && ga.g.nilFlags[o] {
+				if k := ga.ca.flagIndex(o); k >= 0 {
+					out = append(out, tie{ga.nLeaf + k, j, [2][2]bool{{true, false}, {false, true}}})
+				}
 			}
 		}
 	}
@@ -642,6 +663,63 @@ func (ga *guardAnalysis) numericTie(i, j int, e ast.Expr) (tie, bool) {
 				}
 				return t, true
 			}
+		}
+	}
+	return tie{}, false
+}
+
+// orderTie relates a comparison `X op Y` of two non-constant integers to a leaf that recognises another comparison of
+// the same two operands (`ol == il` versus `ol < il`): the leaf is probed with every comparison of X and Y, and the
+// tie lists the combinations possible for X-Y in {-1, 0, 1}.
+func (ga *guardAnalysis) orderTie(i, j int, e ast.Expr) (tie, bool) {
+	f := ga.g.Fn
+	be, ok := ast.Unparen(e).(*ast.BinaryExpr)
+	if !ok {
+		return tie{}, false
+	}
+	ops := []token.Token{token.EQL, token.NEQ, token.LSS, token.GTR, token.LEQ, token.GEQ}
+	isCmp := false
+	for _, o := range ops {
+		isCmp = isCmp || be.Op == o
+	}
+	if !isCmp || f.ConstVal(be.X) != nil || f.ConstVal(be.Y) != nil {
+		return tie{}, false
+	}
+	if tv, ok := f.Info().Types[be.X]; !ok || tv.Type == nil {
+		return tie{}, false
+	} else if b, ok := tv.Type.Underlying().(*types.Basic); !ok || b.Info()&types.IsInteger == 0 {
+		return tie{}, false
+	}
+	holds := func(op token.Token, d int) bool {
+		switch op {
+		case token.EQL:
+			return d == 0
+		case token.NEQ:
+			return d != 0
+		case token.LSS:
+			return d < 0
+		case token.GTR:
+			return d > 0
+		case token.LEQ:
+			return d <= 0
+		case token.GEQ:
+			return d >= 0
+		}
+		return false
+	}
+	l := ga.c.leaves[i]
+	for _, lop := range ops {
+		probe := &ast.BinaryExpr{X: be.X, Op: lop, Y: be.Y, OpPos: be.OpPos}
+		for _, pv := range []bool{true, false} {
+			if !l(Fact{probe, pv}) {
+				continue
+			}
+			var t tie
+			t.leaf, t.atom = i, j
+			for d := -1; d <= 1; d++ {
+				t.allowed[b2i(holds(be.Op, d))][b2i(holds(lop, d) == pv)] = true
+			}
+			return t, true
 		}
 	}
 	return tie{}, false
@@ -1220,7 +1298,45 @@ func (ga *guardAnalysis) nilForm(rhs ast.Expr) *cform {
 			}
 		}
 	}
+	// a variable whose comparison with nil dominates this use (`if err != nil { r = err }`)
+	if id, ok := rhs.(*ast.Ident); ok {
+		if isNil, known := ga.g.nilAtUse(id); known {
+			return &cform{op: gTrue, val: isNil}
+		}
+	}
 	return nil
+}
+
+// nilAtUse decides by a separate query whether the variable is certainly nil / certainly not nil where it is used.
+func (g *Graph) nilAtUse(id *ast.Ident) (isNil, known bool) {
+	type res struct{ isNil, known bool }
+	if g.nilUse == nil {
+		g.nilUse = map[*ast.Ident]*[2]bool{}
+	}
+	if r, ok := g.nilUse[id]; ok {
+		if r == nil {
+			return false, false // being computed
+		}
+		return r[0], r[1]
+	}
+	g.nilUse[id] = nil
+	out := &[2]bool{}
+	f := g.Fn
+	if tv, ok := f.Info().Types[id]; ok && tv.Type != nil {
+		switch tv.Type.Underlying().(type) {
+		case *types.Pointer, *types.Interface, *types.Slice, *types.Map, *types.Signature, *types.Chan:
+			if st := g.FactSite(id); st.B != nil {
+				same := func(e ast.Expr) bool { return f.SameValue(e, id) }
+				if g.Dominated(st, g.GExprNil(false, same)) {
+					out = &[2]bool{false, true}
+				} else if g.Dominated(st, g.GExprNil(true, same)) {
+					out = &[2]bool{true, true}
+				}
+			}
+		}
+	}
+	g.nilUse[id] = out
+	return out[0], out[1]
 }
 
 // solve computes, for every block, the assignments possible at its entry.
@@ -1369,6 +1485,59 @@ type IterationEnd struct {
 	From  *cfg.Block // last block of the iteration
 	Break bool       // leaves the loop (break / goto out) instead of continuing
 	OK    bool       // the guard is established on every path that ends here
+	to    *cfg.Block
+	st    []uint64
+	ga    *guardAnalysis
+}
+
+// Reaches reports whether the site can be reached after the iteration ended this way: the assignments possible at
+// the end are propagated forward (outside the loop body the ordinary transfer applies); false means that every path
+// from this end leaves the function, or fails a condition, before the site.
+func (e IterationEnd) Reaches(site Site) bool { return e.ReachesWithin(site, nil) }
+
+// ReachesWithin is Reaches for a site in the same iteration of an enclosing loop: the head block of that loop (a new
+// iteration, with new elements) ends the search.
+func (e IterationEnd) ReachesWithin(site Site, outerHead *cfg.Block) bool {
+	if e.ga == nil || e.to == nil || site.B == nil {
+		return true
+	}
+	if outerHead != nil && e.to == outerHead {
+		return false
+	}
+	ga := e.ga
+	in := map[*cfg.Block][]uint64{}
+	cp := make([]uint64, len(e.st))
+	copy(cp, e.st)
+	in[e.to] = cp
+	work := []*cfg.Block{e.to}
+	for len(work) > 0 {
+		b := work[len(work)-1]
+		work = work[:len(work)-1]
+		s := in[b]
+		for _, n := range b.Nodes {
+			s = ga.transferNode(n, s)
+		}
+		for k, nb := range b.Succs {
+			t := s
+			if al := ga.edgeAllowed(Edge{b, k}); al != nil {
+				t = bsIntersect(s, al)
+			}
+			if bsEmpty(t) || (outerHead != nil && nb == outerHead) {
+				continue
+			}
+			cur, ok := in[nb]
+			if !ok {
+				c2 := make([]uint64, len(t))
+				copy(c2, t)
+				in[nb] = c2
+				work = append(work, nb)
+			} else if bsUnion(cur, t) {
+				work = append(work, nb)
+			}
+		}
+	}
+	_, ok := in[site.B]
+	return ok && !bsEmpty(ga.stateAt(in, site.B, site.I))
 }
 
 // LoopIteration analyses one iteration of the range loop in isolation: nothing
@@ -1389,6 +1558,7 @@ func (g *Graph) LoopIteration(rs *ast.RangeStmt, guard Guard) []IterationEnd {
 	type endKey struct {
 		b  *cfg.Block
 		br bool
+		to *cfg.Block
 	}
 	ends := map[endKey][]uint64{}
 	for len(work) > 0 {
@@ -1407,7 +1577,7 @@ func (g *Graph) LoopIteration(rs *ast.RangeStmt, guard Guard) []IterationEnd {
 				continue
 			}
 			if nb == loop || (done != nil && nb == done) {
-				key := endKey{b, nb != loop}
+				key := endKey{b, nb != loop, nb}
 				if cur, ok := ends[key]; ok {
 					bsUnion(cur, t)
 				} else {
@@ -1419,7 +1589,7 @@ func (g *Graph) LoopIteration(rs *ast.RangeStmt, guard Guard) []IterationEnd {
 			}
 			// leaving the loop region to a statement outside the loop (labelled break / goto)
 			if blockOutside(nb, rs) {
-				key := endKey{b, true}
+				key := endKey{b, true, nb}
 				if cur, ok := ends[key]; ok {
 					bsUnion(cur, t)
 				} else {
@@ -1442,7 +1612,10 @@ func (g *Graph) LoopIteration(rs *ast.RangeStmt, guard Guard) []IterationEnd {
 	}
 	var out []IterationEnd
 	for k, st := range ends {
-		out = append(out, IterationEnd{From: k.b, Break: k.br, OK: bsSubset(st, ga.holds)})
+		out = append(out, IterationEnd{From: k.b, Break: k.br, OK: bsSubset(st, ga.holds), to: k.to, st: st, ga: ga})
+		if os.Getenv("MLB_DEBUG_GUARD") != "" {
+			fmt.Fprintln(os.Stderr, "LoopIteration", g.Fn.Name(), g.Fn.Prog.Rel(rs.Pos()), "end block", k.b.Index, "break", k.br, "flags", ga.ca.flags, "nil", g.nilFlags, "fties", ga.fties, "nLeaf", ga.nLeaf, "state", st, "holds", ga.holds)
+		}
 	}
 	return out
 }
@@ -1724,4 +1897,15 @@ func (g *Graph) RegionEnds(start *cfg.Block, region ast.Node, guard Guard) []Ite
 		out = append(out, IterationEnd{From: k.b, Break: k.br, OK: bsSubset(st, ga.holds)})
 	}
 	return out
+}
+
+// BlockOutside reports whether the block lies outside the syntactic region.
+func BlockOutside(b *cfg.Block, region ast.Node) bool {
+	if len(b.Nodes) > 0 {
+		return !Encloses(region, b.Nodes[0])
+	}
+	if b.Stmt != nil {
+		return !Encloses(region, b.Stmt)
+	}
+	return false
 }
